@@ -539,6 +539,14 @@ func (e *Env) evalIndex(t *EIndex) (Val, error) {
 		}
 	case *types.Pointer:
 		if at, ok := tt.Elem().Underlying().(*types.Array); ok {
+			if v.Addr != nil {
+				// interior pointer known symbolically (e.g. &s[i] of a slice of arrays): load the array value
+				av, err := e.loadAddr(v.Addr)
+				if err != nil {
+					return Val{}, err
+				}
+				return Val{T: fmt.Sprintf("(select %s %s)", av.T, i.T), Ty: at.Elem()}, nil
+			}
 			comp, _ := u.elemComp(at.Elem())
 			return Val{T: fmt.Sprintf("(select (select %s %s) %s)", e.heap(comp), v.T, i.T), Ty: at.Elem()}, nil
 		}
@@ -582,6 +590,9 @@ func (e *Env) evalBinary(t *EBinary) (Val, error) {
 		switch {
 		case a.Ty == untypedNil && b.Ty == untypedNil:
 			eq = "true"
+		case a.Ty == untypedNil && b.Addr != nil, b.Ty == untypedNil && a.Addr != nil:
+			// an address the executor built (a local, a field or an element) is never nil
+			eq = "false"
 		case a.Ty == untypedNil:
 			eq = u.equalTerms(u.zeroOf(b.Ty), b.T, b.Ty)
 		case b.Ty == untypedNil:
@@ -803,6 +814,29 @@ func (e *Env) evalCall(t *ECall) (Val, error) {
 			c := *e
 			c.inOld = true
 			return Val{T: fmt.Sprintf("(and (not (= %[1]s 0)) (= (refroot %[1]s) %[1]s) (= (refkind %[1]s) 0) (not (select %[2]s %[1]s)) (select %[3]s %[1]s))", ref, c.heap(allocComp), e.heap(allocComp)), Ty: types.Typ[types.Bool]}, nil
+		case "result":
+			// result(f) / result(f, i): the (i-th) result of the most recent call to f made by the
+			// function under contract before this point (for at-call clauses about data flow)
+			if e.x == nil || len(t.Args) == 0 {
+				return Val{}, e.errf("result() needs an executing function")
+			}
+			id, ok := t.Args[0].(*EIdent)
+			if !ok {
+				return Val{}, e.errf("result(f): f must be a function name")
+			}
+			rv, ok := e.x.callResults[id.Name]
+			if !ok {
+				return Val{}, e.errf("result(%s): no call to %s was executed before this point", id.Name, id.Name)
+			}
+			if len(t.Args) == 2 {
+				lit, ok := t.Args[1].(*ELit)
+				n, err := strconv.Atoi(func() string { if ok { return lit.Val }; return "x" }())
+				if err != nil || n < 0 || n >= len(rv.Tup) {
+					return Val{}, e.errf("result(%s, i): bad result index", id.Name)
+				}
+				return rv.Tup[n], nil
+			}
+			return rv, nil
 		case "sameArray":
 			// sameArray(a, b): two slices share their backing array
 			a, err := e.Eval(t.Args[0])
